@@ -31,7 +31,7 @@ RULE = (
 ASSUMPTIONS = [
     "ideal networks (props/_ideal.py) in place of trained weights; frames reach the consumer through a pre-filled frame buffer (the reader side is C13's subject)",
     "frame alphabet: 0,1,2,3 animals; frames 0,1 are 2/3 the size of frames 2,3 and size matching brings them to the same network input, so eff_scale differs between batch-mates; video_idx 0 for frames 0,2 and 1 for frames 1,3",
-    "B = 3 (quick) / 4 (thorough)",
+    "B = 3 (quick) / 4 (thorough); every selection of B >= 2 frames is additionally run as consecutive batches of size B-1 through the same predictor / inference-model instance (batch-size independence and state carried between batches)",
 ]
 
 FR = [0.31, 0.57, 0.18, 0.73, 0.44, 0.66, 0.27, 0.81]
@@ -162,8 +162,10 @@ def same(a, b, tol=2e-3):
     return True
 
 
-def run_batch(cfg, frames, a, sel):
-    p = make_predictor(cfg, len(sel), a)
+def run_batch(cfg, frames, a, sel, batch_size=None):
+    """All frames of `sel` go through ONE predictor / inference-model instance, in consecutive batches of
+    `batch_size` (default: one batch) - so state kept on the inference layers between batches is exercised too."""
+    p = make_predictor(cfg, batch_size or len(sel), a)
     p.pipeline = FilledReader([frames[i]["item"] for i in sel])
     outs = list(p._predict_generator())
     return group(cfg["model"], per_frame(cfg["model"], outs))
@@ -180,12 +182,14 @@ def expected_alone(cfg, frames, a, k):
     return inst
 
 
-def check_cfg(part, cfg, bmax):
+def check_cfg(part, cfg, bmax, only_b=None, only_first=None):
     frames, a = make_frames(cfg["model"])
     ck = core.digest(cfg)
     alone = {k: expected_alone(cfg, frames, a, k) for k in range(4)}
     n_expected = {k: len(frames[k]["animals"]) for k in range(4)}
     for k in range(4):
+        if only_b not in (None, 1):
+            break  # the alone-run sanity clauses are checked by the b == 1 job
         mi = cfg["max_instances"]
         want = n_expected[k] if (mi is None or cfg["model"] != "topdown") else min(mi, n_expected[k])
         if cfg["model"] == "single":
@@ -197,7 +201,11 @@ def check_cfg(part, cfg, bmax):
         if len(alone[k]) != want:
             part.violation({"cfg": cfg, "batch": [k]}, f"alone-run of frame {k} ({n_expected[k]} animals) returns {len(alone[k])} instances, expected {want}")
     for b in range(1, bmax + 1):
+        if only_b is not None and b != only_b:
+            continue
         for sel in itertools.product(range(4), repeat=b):
+            if only_first is not None and sel[0] != only_first:
+                continue
             case = {"cfg": cfg, "batch": list(sel)}
             part.count()
             part.transition()
@@ -211,12 +219,25 @@ def check_cfg(part, cfg, bmax):
                 part.outcome(core.digest(occ))
             if err:
                 part.violation(case, err)
+            # the same frames in consecutive smaller batches through the same inference-model instance
+            if b >= 2:
+                bs = b - 1
+                case2 = {"cfg": cfg, "batch": list(sel), "batch_size": bs}
+                part.count()
+                part.transition()
+                part.state(f"{ck}:{sel}:bs{bs}")
+                part.nontriv(f"{ck}:{sel}:bs{bs}")
+                err, occ = eval_batch(cfg, frames, a, alone, list(sel), bs)
+                if occ is not None:
+                    part.outcome(core.digest(occ))
+                if err:
+                    part.violation(case2, f"[batch size {bs}] " + err)
 
 
-def eval_batch(cfg, frames, a, alone, sel):
+def eval_batch(cfg, frames, a, alone, sel, batch_size=None):
     """Run one batch through the real consumer + inference model and compare with the alone-runs."""
     try:
-        occ = run_batch(cfg, frames, a, list(sel))
+        occ = run_batch(cfg, frames, a, list(sel), batch_size)
     except Exception as e:
         import traceback
 
@@ -310,18 +331,22 @@ def work(part, shard):
     from loguru import logger
 
     logger.remove()
-    for cfg, bmax, kind in shard:
+    for cfg, bmax, kind, b, first in shard:
         if kind == "labels":
             check_labels_topk(part, cfg)
         else:
-            check_cfg(part, cfg, bmax)
+            check_cfg(part, cfg, bmax, b, first)
 
 
 def run(ctx):
     core.setup_torch()
     bmax = 3 if ctx.tier == "quick" else 4
-    jobs = [(c, bmax, "batch") for c in configs()]
-    jobs += [(c, 2, "labels") for c in configs() if c["model"] == "bottomup" and c["max_instances"] is not None]
+    jobs = []
+    for c in configs():
+        for b in range(1, bmax + 1):
+            for first in ([None] if b < 3 else range(4)):  # the big batch sizes are split by first frame (load balance)
+                jobs.append((c, bmax, "batch", b, first))
+    jobs += [(c, 2, "labels", None, None) for c in configs() if c["model"] == "bottomup" and c["max_instances"] is not None]
     ctx.bounds = {"max_batch": bmax, "configs": len(configs()), "batches_per_config": sum(4**b for b in range(1, bmax + 1))}
     jobs = core.rotate(jobs, ctx.seed)
     core.pmap(ctx, work, [[j] for j in jobs])
@@ -340,6 +365,6 @@ def replay(case):
         frames, a = make_frames(cfg["model"])
         sel = case["batch"]
         alone = {k: expected_alone(cfg, frames, a, k) for k in range(4)}
-        err, occ = eval_batch(cfg, frames, a, alone, sel)
+        err, occ = eval_batch(cfg, frames, a, alone, sel, case.get("batch_size"))
         return {"violates": err is not None, "error": err, "observed": occ, "alone": {k: alone[k] for k in set(sel)}}
     return {"violates": part.n_viol > 0, "messages": [m for _, m in part.viol[:3]]}
